@@ -1238,6 +1238,18 @@ class Translator:
         if mnode.get("kind") not in ("FieldDecl",):
             if mnode.get("kind") == "VarDecl":  # static data member
                 return self.global_var({"id": mid, "name": mnode["name"]})
+            bty = self.ety(base)
+            bty = bty.to if e.get("isArrow") and bty.kind == "ptr" else bty.noref()
+            std = getattr(self, "stdlib", None)
+            if not mnode and std is not None and bty.kind == "rec" and std.record(bty.name) is not None and not std.is_opaque(bty.name):
+                # field of a modelled std record (std::pair): the declaration lives in a system header (not dumped)
+                fl = dict(std.record(bty.name))
+                if e["name"] not in fl:
+                    raise ExtractionBreak("field '%s' of modelled record %s" % (e["name"], bty.name))
+                self.need_record(bty.name)
+                self.rule("modelled std record field")
+                b = deref(self.rv(base)) if e.get("isArrow") else self.lv(base)
+                return X("mem", b, e["name"], ty=self.lower(fl[e["name"]]))
             raise ExtractionBreak("MemberExpr to %s" % mnode.get("kind"))
         fty = parse_type(minfo["type"])
         if e.get("isArrow"):
